@@ -107,6 +107,21 @@ pub fn check_insertion(subj: Subj, positions: &[usize], elems: &[Elem]) -> Resul
             bytes.extend(elem_bytes(e));
         }
     }
+    // the stream then ends cleanly: how the readers report the end must not depend on the insertions either (a skipped
+    // element right before the FIN is still a whole element, not a truncated frame)
+    let end_of = |b: &[u8], max: usize| {
+        let mut src = Scripted::whole(b, End::Eof);
+        let whole = run_async(subj, &mut src, max, 8192);
+        let ones = vec![1usize; b.len() + 1];
+        let mut src = Scripted::new(b, &ones, 0, End::Eof);
+        let bytewise = run_async(subj, &mut src, max, 1 << 16);
+        (format!("{:?}", whole.fin), format!("{:?}", bytewise.fin))
+    };
+    let (e0, e1) = end_of(&base_bytes, base.len() + 2);
+    let (g0, g1) = end_of(&bytes, base.len() + elems.len() + 2);
+    if e0 != g0 || e1 != g1 {
+        return Err(format!("clean end of stream after the exchange: reported as {g0} / {g1} with the insertions, as {e0} / {e1} without"));
+    }
     let got = read_all_paths(subj, &bytes, base.len() + elems.len() + 2)?;
     if got != want {
         return Err(format!(
